@@ -36,6 +36,8 @@ for d in sorted(glob.glob(os.path.join(V, "seeded", "C*"))):
     det += bool(r.get("detected"))
     det_other += bool(also) and not r.get("detected")
     summ = re.sub(r"\s+", " ", str(m.get("summary", "")))[:230].replace("|", "\\|")
+    if m.get("status_at_final_head"):
+        summ += " **[" + re.sub(r"\s+", " ", m["status_at_final_head"])[:260].replace("|", "\\|") + "]**"
     needs = re.sub(r"\s+", " ", str(m.get("needs", "")))[:200].replace("|", "\\|")
     lines.append("| %s | %s | %s | %s | %s (%ss) | %s |" % (
         os.path.basename(d), summ, needs, "yes" if r.get("confirmed") else "NO",
